@@ -123,6 +123,11 @@ def run(ctx):
     if r.coverage_zero():
         raise core.Machinery("vacuous Lifecycle_env run: actions never taken %s" % r.coverage_zero())
     ctx.add_tlc(r, "R1")
+    # negative model (not vacuous): were the connection serial numbers drawn once per driver object, a connection that
+    # outlived a close() would make the re-opened driver unusable - TLC must find that behaviour
+    r = tlc.run("Lifecycle", "Lifecycle_stale_triad.cfg", workers=16, timeout=900)
+    if r.violated != "NoViolation" or 'viol = "reopen-duplicate-connection"' not in r.out:
+        raise core.Machinery("Lifecycle_stale_triad: the duplicate Forward Open after a lost Forward Close was not found (%s)" % r.violated)
     rnd = random.Random(ctx.seed * 101 + 10)
     scs, n_model = build(ctx, rnd, thorough)
     results = se.run_all(ctx, scs, "c10", shard_traces=400)
